@@ -23,12 +23,20 @@ import (
 const buildFile = `K = 300
 NAMES = ["a", "b", ("c", 4.5), {"k": b"v", 7: None}]
 
-def helper(x, y=70000):
+def helper(x, y=70000, *rest, **kw):
     return x + K + y + len(NAMES)
+
+def mk(n):
+    def inner(x, z=(1, "two")):
+        return x + n + len(z)
+    return inner
+
+INC = mk(3)
 
 @target(sources=["a.txt"], generates=["out.txt"], default=True)
 def t():
     helper(1)
+    INC(2)
     sh.exec("echo run >> log.txt && cp a.txt out.txt")
 `
 
@@ -154,7 +162,38 @@ func runRecords(r *rng, tier string) {
 	if res, _ := runChild(dir0); res != "ok" || logLines(dir0) != 1 {
 		violation("record-spurious", map[string]any{"stream": "rec", "stamp": stamp}, "second build of the unchanged tree: "+res)
 	}
+	if replayRecord == "" {
+		envStream(orig, tier)
+	}
 	var cases []recCase
+	// single-byte substitutions where the genuine record has an (empty) association list or tuple: the stamp still
+	// decodes, to an environment of a different shape
+	if replayRecord == "" {
+		var flips []recCase
+		for p, b := range orig {
+			if b != ')' && b != 'N' && b != ']' {
+				continue
+			}
+			for _, sub := range []byte{'N', ']', '}', 0x88, 0x89, 0x8f, ')'} {
+				if sub == b {
+					continue
+				}
+				m := append([]byte{}, orig...)
+				m[p] = sub
+				flips = append(flips, recCase{kind: "shape-flip", raw: m, stamp: base64.StdEncoding.EncodeToString(m)})
+			}
+		}
+		limit := 48
+		if tier == "thorough" {
+			limit = len(flips)
+		}
+		for len(flips) > limit { // a seeded sample in the quick tier
+			k := r.below(len(flips))
+			flips = append(flips[:k], flips[k+1:]...)
+		}
+		cases = append(cases, flips...)
+		stats["rec.shape-flips"] = len(flips)
+	}
 	if replayRecord != "" {
 		n = 0
 		c := recCase{kind: "replay", fixed: []byte(replayRecord)}
@@ -287,4 +326,43 @@ func runRecords(r *rng, tier string) {
 	}
 	close(ch)
 	wg.Wait()
+}
+
+// envStream: in-process Decode of corruptions of a GENUINE function-environment record with dawn's own envUnpickler as
+// the host: every single-byte substitution by an implemented opcode at every position (all 256 byte values in the
+// thorough tier), every truncation, and seeded multi-byte mutations. Judged: an error, or a well-formed non-nil value.
+func envStream(orig []byte, tier string) {
+	stats["env.record-bytes"] = len(orig)
+	subs := append([]byte{}, implemented...)
+	if tier == "thorough" {
+		subs = subs[:0]
+		for b := 0; b < 256; b++ {
+			subs = append(subs, byte(b))
+		}
+	}
+	for p := range orig {
+		for _, b := range subs {
+			if b == orig[p] {
+				continue
+			}
+			m := append([]byte{}, orig...)
+			m[p] = b
+			runCase(func() { doBytes("dec.env-subst", m, "E", true) })
+		}
+	}
+	for n := 0; n < len(orig); n++ {
+		n := n
+		runCase(func() { doBytes("dec.env-truncated", orig[:n], "E", true) })
+	}
+	r := &rng{s: 99}
+	k := 3000
+	if tier == "thorough" {
+		k = 100000
+	}
+	for i := 0; i < k; i++ {
+		m := r.mutate(r.mutate(orig))
+		runCase(func() { doBytes("dec.env-mutated", m, "E", true) })
+	}
+	runCase(func() { doBytes("dec.env-genuine", orig, "E", true) })
+	marker()
 }
